@@ -17,8 +17,8 @@ CLAIMED = {
             "Theorems (all documents of the class; strings of any characters, bare words, booleans, null, integers; any length, any depth): the canonical text is accepted by the strict reader, "
             "which returns the same document, and canonicalising it again gives the same bytes, for flat documents (C01_flat_fixed_point), arbitrarily nested blocks (C01_tree_fixed_point), META + trees "
             "(C01_meta_fixed_point), sections with ids 1 / 2b / NAME nested to any depth (C01_sect_fixed_point), expressions with every operator (C01_expr_fixed_point), list values (C01_list_fixed_point), "
-            "trees with leading / trailing / end-of-document comments (C01_ctree_fixed_point), and the unified classes where evidence "
-            "lists C01unified / C01document; emit ignores positions. PARTIAL: the classes are proved one family at a time; mixtures outside the listed unified classes, floats inside documents, inline "
+            "trees with leading / trailing / end-of-document comments (C01_ctree_fixed_point), and two unified classes: rich values inside blocks and sections "
+            "(C01_udoc_fixed_point) and META + sections + comments on every node (C01_document_fixed_point); emit ignores positions. PARTIAL: mixtures outside the two unified classes, floats inside documents, inline "
             "maps, holographic values and zones in lists/META (findings C01N5, C01N6) are backed by the tie only: regenerated lexer/emitter/parser tables pinned by decide facts; exact correspondence "
             "(canonical text, strict verdict) of the full transcription on generated documents, the shipped corpus, exhaustive token sequences and mutations; oracle on the real code incl. tools."),
     "C02": ("text", "Lean 4 proof (content preservation at document level per construct; comments attached and kept; reader value typing; list values) + content-model oracle + AST correspondence",
@@ -45,7 +45,7 @@ CLAIMED = {
             "inside it and only there, the lexer yields FENCE_OPEN / LITERAL_CONTENT / FENCE_CLOSE carrying exactly the content, tag and marker, with no receipt (C05_zone_lexes_verbatim); the strict "
             "reader returns the zone with exactly its content (C05_zone_read_verbatim); emit -> read -> emit is a fixed point exactly when the content is not the single empty line "
             "(C05_zone_fixed_point_partial, C05N1_canon_exact); flat lines after a zone are untouched (C05_zone_neighbours_untouched); at token level any number of zones and lines in any order "
-            "(C05_items_read). PARTIAL: zones after other lines / inside blocks at text level (C05tree where evidence lists it), zones in lists/META and the tool routes are decided by zone-dense "
+            "(C05_items_read). any number of keyed zones anywhere in a forest of lines and nested blocks (C05_ztree_zone_read_verbatim, C05_ztree_fixed_point_partial). PARTIAL: bare zones as block children, zones in lists/META and the tool routes are decided by zone-dense "
             "generated documents through 9 pipelines compared with the generator's model and by the model/implementation zone correspondence."),
     "C07": ("text", "Lean 4 proof (bijection between normalised tokens and normalisation receipts for every input; exact receipts of every alias spelling; canonical text has none) + receipt bijection search",
             "Theorems (every input text, both lexer modes): the normalisation receipts are, in order, exactly the normalised tokens with original text, replacement and position "
